@@ -20,7 +20,7 @@ CONSTANTS Pairs
 \* position -> status -> class
 HexV  == [ok |-> "ok", upper |-> "bad", short |-> "bad", long |-> "bad", nonhex |-> "bad", empty |-> "bad", number |-> "bad"]
 KindV == [k0 |-> "ok", k1 |-> "ok", k65535 |-> "ok", neg |-> "bad", k65536 |-> "bad", big |-> "bad",
-          float |-> "bad", string |-> "bad", exp |-> "open"]
+          float |-> "bad", string |-> "bad", exp |-> "open", wrap32 |-> "bad"]
 TsV   == [t0 |-> "ok", now |-> "ok", big |-> "ok", neg |-> "open", float |-> "bad", string |-> "bad"]
 TagsV == [none |-> "ok", one |-> "ok", multi |-> "ok", nameonly |-> "ok", emptyval |-> "ok",
           emptytag |-> "open", emptyname |-> "open", numelem |-> "bad", notarray |-> "bad", innernotarray |-> "bad"]
@@ -35,13 +35,13 @@ EventBase == [id |-> "ok", pubkey |-> "ok", sig |-> "ok", kind |-> "k1", created
 
 ListV  == [absent |-> "ok", one |-> "ok", two |-> "ok", empty |-> "ok", upper |-> "bad", short |-> "bad",
            number |-> "bad", notarray |-> "bad", null |-> "open"]
-KindsV == [absent |-> "ok", one |-> "ok", multi |-> "ok", empty |-> "ok", neg |-> "bad", k65536 |-> "bad",
+KindsV == [absent |-> "ok", one |-> "ok", multi |-> "ok", empty |-> "ok", neg |-> "bad", k65536 |-> "bad", wrap32 |-> "bad",
            float |-> "bad", string |-> "bad", notarray |-> "bad"]
 TagEV  == [absent |-> "ok", ok |-> "ok", empty |-> "ok", badid |-> "open", number |-> "bad", notarray |-> "bad"]
 TagTV  == [absent |-> "ok", ok |-> "ok", emptystr |-> "ok", empty |-> "ok", upperkey |-> "ok", number |-> "bad", notarray |-> "bad"]
-TagAV  == [absent |-> "ok", ok |-> "ok", dcolon |-> "ok", emptyd |-> "ok", twoparts |-> "open",
+TagAV  == [absent |-> "ok", ok |-> "ok", dcolon |-> "ok", emptyd |-> "ok", kind0emptyd |-> "ok", kindwrap |-> "bad", twoparts |-> "open",
            badkind |-> "bad", kindrange |-> "bad", badpk |-> "bad", upperpk |-> "bad"]
-KeyV   == [none |-> "ok", unknown |-> "bad", multiletter |-> "bad", hashonly |-> "bad", digit |-> "open"]
+KeyV   == [none |-> "ok", unknown |-> "bad", multiletter |-> "bad", hashonly |-> "bad", emptykey |-> "bad", digit |-> "open"]
 NumV   == [absent |-> "ok", zero |-> "ok", ok |-> "ok", neg |-> "bad", float |-> "bad", string |-> "bad"]
 RelV   == [na |-> "ok", inverted |-> "open"]       \* since > until (both present and ok)
 
@@ -79,11 +79,14 @@ EnvPos(t) == {"label", "top", "ws"} \cup (IF HasFilters(t) \/ t = "CLOSE" THEN {
 \* and from since = ok (100) with until = zero
 Inverted(f) == \/ f.rel = "inverted" /\ f.since = "ok" /\ f.until = "ok"
                \/ f.since = "ok" /\ f.until = "zero"
-FilterClasses(f) == {FilterV[p][f[p]] : p \in DOMAIN FilterV \ {"rel"}}
-                      \cup {IF Inverted(f) THEN "open" ELSE "ok"}
+\* a filter (event) that is not rendered as a JSON object has no other positions: they are masked
+FilterClasses(f) == IF f.obj # "object" THEN {ObjV[f.obj]}
+                    ELSE {FilterV[p][f[p]] : p \in DOMAIN FilterV \ {"rel"}}
+                           \cup {IF Inverted(f) THEN "open" ELSE "ok"}
+EventClasses(e)  == IF e.obj # "object" THEN {ObjV[e.obj]} ELSE {EventV[p][e[p]] : p \in DOMAIN EventV}
 Classes(m) ==
   {EnvV[p][m.env[p]] : p \in EnvPos(m.type)}
-  \cup (IF HasEvent(m.type) THEN {EventV[p][m.ev[p]] : p \in DOMAIN EventV} ELSE {})
+  \cup (IF HasEvent(m.type) THEN EventClasses(m.ev) ELSE {})
   \cup (IF HasFilters(m.type) /\ m.env.nfil # "zero" THEN FilterClasses(m.f1) ELSE {})
   \cup (IF HasFilters(m.type) /\ m.env.nfil = "two" THEN FilterClasses(m.f2) ELSE {})
 
@@ -114,7 +117,7 @@ ASSUME \A m \in Singles : Verdict(m) = "accept" => \A p \in EnvPos(m.type) : Env
 (* Server messages (C10 round trip): every type with every value class of  *)
 (* its fields.  All of them are well-formed values: encode, decode, equal. *)
 StrC    == {"empty", "ascii", "unicode", "escapes"}
-PrefixC == {"none", "duplicate", "blocked", "error", "invalid", "pow", "ratelimited", "lookalike"}
+PrefixC == {"none", "duplicate", "blocked", "error", "invalid", "pow", "ratelimited", "lookalike", "doubled"}
 CountC  == {"zero", "small", "big53", "max63"}
 ApproxC == {"absent", "true", "false"}
 Srv(t, str, pre, acc, cnt, apx) == [type |-> t, str |-> str, prefix |-> pre, acc |-> acc, count |-> cnt, approx |-> apx]
